@@ -188,12 +188,35 @@ def work_site(task):
     return acc
 
 
+def work_polar(task):
+    """cells 0..3.5 widths from a pole along 12 meridians (0, 30, .., 330 and exactly +-180), every resolution"""
+    a5 = geo.api()
+    sgn, rs = task
+    acc = common.Acc()
+    seen = set()
+    for r in rs:
+        w = math.degrees(sp.width(r))
+        for lon in [-180.0, 180.0] + [30.0 * k - 165.0 for k in range(12)] + [179.999999, -179.999999]:
+            for dist in (0.3, 0.8, 1.3, 1.9, 2.6, 3.5):
+                lat = sgn * max(0.0, 90.0 - dist * w)
+                try:
+                    c = a5.lonlat_to_cell((lon, lat), r)
+                except Exception:
+                    continue
+                if c in seen or rm.decode(c) is None:
+                    continue
+                seen.add(c)
+                check_cell(acc, a5, c, r, f'{c:#x}')
+                acc.strata['polar_region'] += 1
+    return acc
+
+
 def run(tier, t0):
     acc = common.Acc()
     R = 4 if tier == 'quick' else 6
     tasks = []
     for r in range(0, R + 1):
-        for ch in common.chunks(rm.descendants((), r), 40):
+        for ch in common.chunks(rm.interleaved(rm.descendants((), r)), 40):
             tasks.append((work_paths, ch))
     deep = []
     for r in range(R + 1, 30):
@@ -209,6 +232,9 @@ def run(tier, t0):
             tasks.append((work_site, (kind, lon, lat, rs)))
         else:
             tasks.append((work_site, (kind, lon, lat, rs[common.seed() % 3::3])))
+    for sgn in (1, -1):
+        for rs in ([0, 1, 2, 3, 4, 5, 6, 7], list(range(8, 16)), list(range(16, 23)), list(range(23, 30))):
+            tasks.append((work_polar, (sgn, rs)))
     tasks = common.rotate(tasks, common.seed())
     for part in common.pmap(_dispatch, tasks, chunksize=2):
         acc.merge(part)
